@@ -612,6 +612,13 @@ func (in *Interp) intResult(r *Term) *Term {
 
 func pow2(k int) *Term { return IntBig(new(big.Int).Lsh(big.NewInt(1), uint(k))) }
 
+func exactDivTerm(x, y *Term) (*Term, bool) {
+	if y.IsConst() && y.c.Sign() > 0 && y.c.Cmp(big.NewInt(1)) > 0 && !x.IsConst() {
+		return exactDiv(x, y.c, 0)
+	}
+	return nil, false
+}
+
 func (in *Interp) intBinop(op token.Token, x, y *Term) Value {
 	switch op {
 	case token.ADD:
@@ -626,6 +633,13 @@ func (in *Interp) intBinop(op token.Token, x, y *Term) Value {
 			in.goPanic("integer divide by zero")
 		}
 		var q *Term
+		if xq, exact := exactDivTerm(x, y); exact {
+			// an exact division has no rounding: truncation and floor coincide
+			if op == token.QUO {
+				return xq
+			}
+			return IntC(0)
+		}
 		if y.IsConst() && y.c.Sign() > 0 && x.nonNeg() {
 			q = IArith("div", x, y)
 		} else {
